@@ -154,6 +154,8 @@ func initAllowed(path string) bool {
 	switch path {
 	case "errors", "io", "context", "unicode/utf8", "math/bits", "encoding/binary", "strconv", "io/fs", "net/http", "time":
 		return path == "io" || path == "context"
+	case "encoding/base64":
+		return true
 	}
 	return false
 }
